@@ -344,8 +344,9 @@ func (root *Root) resolveList(
 	lt := t.Base
 	switch list := obj.(type) {
 	case ListResolver:
-		var rlist []interface{}
 		cnt := list.Len()
+		// Not nil when empty, a nil slice is null to encoding/json.
+		rlist := []interface{}{}
 		var v interface{}
 		for i := 0; i < cnt; i++ {
 			v, ea2 = root.resolve(list.Nth(i), vars, field, lt, depth)
@@ -408,8 +409,8 @@ func (root *Root) resolveList(
 		result = rlist
 	default:
 		if root.AnyResolver != nil {
-			var rlist []interface{}
 			cnt := root.AnyResolver.Len(obj)
+			rlist := []interface{}{}
 			for i := 0; i < cnt; i++ {
 				v, err := root.AnyResolver.Nth(obj, i)
 				if err == nil {
@@ -431,8 +432,8 @@ func (root *Root) resolveList(
 			rv := reflect.ValueOf(obj)
 			switch rv.Kind() {
 			case reflect.Slice, reflect.Array:
-				var rlist []interface{}
 				cnt := rv.Len()
+				rlist := []interface{}{}
 				for i := 0; i < cnt; i++ {
 					v := rv.Index(i).Interface()
 					v, ea2 = root.resolve(v, vars, field, lt, depth)
